@@ -233,6 +233,11 @@ def run(ctx):
             ds = [d_ for d_ in q.defs_in(mg, reg) if not d_[1] and mg.locals[d_[0]]['ty'] == 'u8' and mg.locals[d_[0]].get('name')]
             got = sorted((mg.locals[d_[0]]['name'], [i for i in range(3) if is_channel_of(d_[2], other, i)]) for d_ in ds)
             ok = len(got) == 3 and sorted(x[1][0] for x in got if x[1]) == [0, 1, 2]
+            if not ds:
+                # tuple-valued `if`: the arm yields (r, g, b) as one tuple
+                tds = [d_ for d_ in q.defs_in(mg, reg) if not d_[1] and d_[2][0] == 'tuple' and len(d_[2][1]) == 3]
+                got = [('tuple', [[i for i in range(3) if is_channel_of(x, other, i)] for x in d_[2][1]]) for d_ in tds]
+                ok = len(tds) == 1 and got[0][1] == [[0], [1], [2]]
             ctx.inst('W5', nm, ok, 'merge, %s: colour channels := %s; must be the other operand\'s r, g, b unchanged' % (nm, got), tm['span'],
                      key='%s|W5|%s' % (mg.name, nm))
 
